@@ -425,7 +425,34 @@ func (pc *propCheck) report(t0 time.Time) int {
 	}
 	pc.replays = map[*Obligation]replayResult{}
 	pc.models = map[*Obligation]string{}
+	var undecided []string
 	for _, o := range violations {
+		if o.Kind == "engine" {
+			// the function is outside the verifier's subset (or its contract no longer types) after a
+			// change: the obligations cannot be generated, which is not evidence of a violation. The
+			// scenario pool decides: a failing scenario on the real code is a violation, otherwise the
+			// function is reported as undecided.
+			rr := pc.replayLibrary(o, conOf[o], "")
+			if !rr.Tried {
+				rr = pc.replayTranslator(o, conOf[o])
+			}
+			if !rr.Confirmed {
+				why := ""
+				if o.Result != nil {
+					why = firstLine(o.Result.Output)
+				}
+				fmt.Printf("UNDECIDED: property=%s %s: %s — outside the verifier's subset in this tree; its obligations are not claimed in this run (scenario pool on the real code: %s)\n", pc.ID, o.Func, why, map[bool]string{true: "no scenario fails", false: "none available"}[rr.Tried])
+				undecided = append(undecided, o.Func+": "+why)
+				continue
+			}
+			pc.replays[o] = rr
+			pc.nReplayTried++
+			pc.nReplayConfirmed++
+			exit = 1
+			path := pc.writeReplay(replayDir, o, reasons[o])
+			fmt.Printf("VIOLATION property=%s replay=%s obligation=%q\n", pc.ID, path, o.Name)
+			continue
+		}
 		exit = 1
 		if !o.MustFail && !o.Cover && o.Kind != "engine" {
 			model := ""
@@ -500,10 +527,24 @@ func (pc *propCheck) report(t0 time.Time) int {
 	var stale []string
 	for _, r := range pc.Results {
 		if r.stale != "" && r.con != nil {
+			// the scenario pool still runs against the real code
+			o := &Obligation{Name: r.con.FuncName + "/scenario pool[contract is stale]", Kind: "scenario", Func: r.con.FuncName, Result: &SolverResult{Status: "unknown", Solver: "gvc", Output: r.stale}}
+			rr := pc.replayLibrary(o, r.con, "")
+			if !rr.Tried {
+				rr = pc.replayTranslator(o, r.con)
+			}
+			if rr.Confirmed {
+				pc.replays[o] = rr
+				exit = 1
+				path := pc.writeReplay(replayDir, o, "contract is stale ("+r.stale+"); a scenario of the pool fails on the real code")
+				fmt.Printf("VIOLATION property=%s replay=%s obligation=%q\n", pc.ID, path, o.Name)
+				continue
+			}
 			fmt.Printf("STALE-CONTRACT: property=%s %s: %s — the obligations of this function are not claimed in this run\n", pc.ID, r.con.FuncName, r.stale)
 			stale = append(stale, r.con.FuncName+": "+r.stale)
 		}
 	}
+	stale = append(stale, undecided...)
 	// evidence
 	var fuc, assumed, notes, warnings []string
 	noteSet := map[string]bool{}
@@ -571,13 +612,19 @@ func (pc *propCheck) report(t0 time.Time) int {
 		"coverage":    cov,
 		"assumptions": append(notes, pc.ExtraAssumptions...),
 		"wall_s":      round3(time.Since(t0).Seconds()),
-		"violations":  len(violations),
+		"violations":  len(violations) - len(undecided),
+	}
+	if len(undecided) > 0 {
+		cov["undecided"] = undecided
 	}
 	b, _ := json.MarshalIndent(ev, "", " ")
 	os.MkdirAll(filepath.Join(verifDir, "evidence"), 0o755)
 	os.WriteFile(filepath.Join(verifDir, "evidence", pc.ID+".json"), b, 0o644)
 	fmt.Printf("property %s tier %s: %d obligations, %d discharged, %d vacuity checks, %d known findings, %d violations, %.1fs\n",
-		pc.ID, pc.Tier, nClaimed, nDischarged, nVacuity, len(kfSeen), len(violations)+0, time.Since(t0).Seconds())
+		pc.ID, pc.Tier, nClaimed, nDischarged, nVacuity, len(kfSeen), len(violations)-len(undecided), time.Since(t0).Seconds())
+	if len(undecided) > 0 {
+		fmt.Printf("property %s: %d function(s) undecided in this tree (outside the verifier's subset; scenario pool passes)\n", pc.ID, len(undecided))
+	}
 	return exit
 }
 
